@@ -69,7 +69,9 @@ for _ in range(R.n(40, 600)):
 for i in range(R.n(8, 60)):
     c = rand_cfg()
     c['nb'] = rng.choice([8, 16]); c['nc'] = rng.randint(1, c['nb'] // 2); c['sc'] = rng.randint(0, c['nb'] // 2 - c['nc'])
-    n = rng.randint(1, 5)
+    n = rng.choice([1, 2, 3, 5, 6, 7])
+    c['sr'] = rng.choice([c['sr'], 3e9, 1e9])
+    c['asc'] = rng.random() < 0.5
     made = R.guard('record', c, lambda: mk_backend(**c))
     if made is None:
         continue
@@ -86,6 +88,9 @@ for i in range(R.n(8, 60)):
     drawn = (want + c['taps'] * c['nb'])
     adv = (src.t_start - t0) * c['sr']
     R.check('record/clock-advance', dict(c, n=n), abs(adv - drawn) <= 1e-6 * drawn, adv, drawn)
+    h0 = stg.voltage.raw_utils.read_header(stem + '.0000.raw')
+    R.check('record/SCANLEN-and-PKTSTOP-exact', dict(c, n=n), int(h0['PKTSTOP']) - int(h0['PKTSTART']) == n * spb and abs(float(h0['SCANLEN']) - n * be.time_per_block) <= 1e-12 * n * be.time_per_block
+            and float(h0['SCANLEN']) > 0, [h0['PKTSTART'], h0['PKTSTOP'], h0['SCANLEN']], n * spb)
     if c['nant'] > 1:
         R.check('record/member-streams-on-the-array-clock', dict(c, n=n), all(abs(st.t_start - src.t_start) <= 1e-9 for a_ in src.antennas for st in a_.streams), None)
     for fn in os.listdir(R.tmp):
